@@ -1,6 +1,5 @@
-(* C26 -- predicates, part 3: is_symmetric (is_symmetric.cpp).  The HadamardProduct case of the
-   visitor reuses the MatrixAdd rule, which is wrong for a product: the theorem is guarded by
-   [has_had e = false] and the defect is refuted by a witness. *)
+(* C26 -- predicates, part 3: is_symmetric (is_symmetric.cpp).  (Before the repair 7b2e06b the
+   HadamardProduct case reused the MatrixAdd rule and answered "false" for symmetric values.) *)
 From SE Require Import C26.MatSpec C26.MatLemmas C26.MatAddProofs C26.MatPredBase C26.MatPredRules.
 From Coq Require Import Lia Ring.
 Local Open Scope nat_scope.
@@ -67,24 +66,57 @@ Proof.
   destruct (tz_cases (esub (nth (i * n + j) v e0) (nth (j * n + i) v e0))) as [-> | ->]; auto.
 Qed.
 
-Lemma existsb_false_In {A} (f : A -> bool) l x : existsb f l = false -> In x l -> f x = false.
+Definition sym_go (p : mexpr -> res tri) : list mexpr -> res tri :=
+  fix go (l : list mexpr) : res tri :=
+    match l with
+    | [] => Ok TT
+    | x :: r => do t <- p x; if is_true t then go r else Ok TI
+    end.
+
+Lemma sym_had_rule_eq p l : sym_had_rule p l = match l with [] => Ok TI | _ => sym_go p l end.
+Proof. destruct l; reflexivity. Qed.
+
+Lemma sym_go_spec p l t :
+  sym_go p l = Ok t -> t <> TF /\ (t = TT -> forall x, In x l -> p x = Ok TT).
 Proof.
-  intros H Hin. destruct (f x) eqn:E; [|reflexivity].
-  assert (existsb f l = true) by (apply existsb_exists; eauto). congruence.
+  revert t. induction l as [|x l IH]; intros t H; cbn [sym_go] in H.
+  - inversion H; subst. split; [discriminate | intros _ y []].
+  - destruct (p x) as [tx| | |] eqn:Ex; cbn [bind] in H; try discriminate.
+    destruct (is_true tx) eqn:E.
+    + destruct tx; try discriminate. destruct (IH t H) as [A B]. split; [assumption|].
+      intros Et y [<-|Hy]; [assumption | now apply B].
+    + inversion H; subst. split; discriminate.
+Qed.
+
+Lemma sym_had_rule_spec p l t :
+  sym_had_rule p l = Ok t -> t <> TF /\ (t = TT -> l <> [] /\ forall x, In x l -> p x = Ok TT).
+Proof.
+  rewrite sym_had_rule_eq. destruct l as [|x0 l0].
+  - intros H; inversion H; subst. split; discriminate.
+  - intros H. destruct (sym_go_spec p _ t H) as [A B]. split; [assumption|].
+    intros Et. split; [discriminate | now apply B].
+Qed.
+
+Lemma eprod_map_ext {A} (f g : A -> ent) l :
+  (forall x, In x l -> f x = g x) -> eprod (map f l) = eprod (map g l).
+Proof.
+  induction l as [|x r IH]; intros H; cbn [map]; [reflexivity|]. rewrite !eprod_cons.
+  rewrite H by (now left). rewrite IH; [reflexivity|]. intros; apply H; now right.
 Qed.
 
 Lemma is_symmetric_TF_concrete e :
-  is_symmetric e = Ok TF -> is_MZero e = false -> is_MAdd e = false -> has_had e = false -> concrete e = true.
+  is_symmetric e = Ok TF -> is_MZero e = false -> is_MAdd e = false -> concrete e = true.
 Proof.
-  destruct e; cbn [is_symmetric is_MZero is_MAdd has_had concrete is_MDiag is_MDense orb];
-    intros H Hz Ha Hh; try discriminate; reflexivity.
+  destruct e; cbn [is_symmetric is_MZero is_MAdd concrete is_MDiag is_MDense orb];
+    intros H Hz Ha; try discriminate; try reflexivity.
+  apply sym_had_rule_spec in H. destruct H as [H _]. congruence.
 Qed.
 
 Theorem is_symmetric_sound rho e :
-  wf e = true -> has_had e = false -> forall t, is_symmetric e = Ok t -> sound_answer t P_symmetric rho e.
+  wf e = true -> forall t, is_symmetric e = Ok t -> sound_answer t P_symmetric rho e.
 Proof.
   induction e as [n|m n|x|d|m n v|ts IH|k fs IH|fs IH|a IHa|a IHa] using mexpr_ind';
-    intros Hwf Hh t Ht; cbn [is_symmetric] in Ht; try (inversion Ht; subst; intros V _; split; discriminate).
+    intros Hwf t Ht; cbn [is_symmetric] in Ht; try (inversion Ht; subst; intros V _; split; discriminate).
   - inversion Ht; subst. intros V HV. split; [|discriminate]. intros _.
     apply denote_Some in HV. destruct HV as (s & Hs & ->). rewrite shp_MIdent in Hs. inversion Hs; subst.
     split; [reflexivity|]. cbn [mr mc mf fst snd]. intros i j _ _. rewrite !val_MIdent. unfold delta. now rewrite Nat.eqb_sym.
@@ -104,14 +136,13 @@ Proof.
     apply andb_true_iff in Hwf. destruct Hwf as [Hwf Hcc].
     apply andb_true_iff in Hwf. destruct Hwf as [_ Hkinds].
     rewrite forallb_forall in Hwfs, Hkinds. apply Nat.leb_le in Hcc.
-    cbn [has_had] in Hh.
     rewrite Forall_forall in IH, Hall.
     destruct (add_rule_sound is_symmetric (good_at rho P_symmetric s) ts false t) as [A B]; try assumption.
-    + intros x Hin Ex. eapply sound_answer_good; eauto using existsb_false_In.
+    + intros x Hin Ex. eapply sound_answer_good; eauto.
     + intros x Hin Ex. split.
-      * eapply sound_answer_good; eauto using existsb_false_In.
+      * eapply sound_answer_good; eauto.
       * specialize (Hkinds x Hin). apply negb_true_iff, orb_false_iff in Hkinds. destruct Hkinds.
-        apply is_symmetric_TF_concrete; eauto using existsb_false_In.
+        apply is_symmetric_TF_concrete; eauto.
     + lia.
     + unfold P_symmetric. cbn [mr mc mf]. split.
       * intros E. destruct (A E) as [_ G]. rewrite Forall_forall in G. split.
@@ -136,30 +167,19 @@ Proof.
         rewrite Hx, HP.
         unfold em1. generalize (val rho x j i) a1 a2. intros [p1 p2] [q1 q2] [r1 r2].
         apply ent_eq; unfold eadd, emul, qc0, qc1; cbn [fst snd]; ring.
-    (* HadamardProduct: excluded by the guard (closed by the first tactic) *)
-Qed.
-
-(* ---------------------------------------------------------------- the defect *)
-Definition sym_b (n : nat) (f : nat -> nat -> ent) : bool :=
-  forallb (fun ij => e_eqb (f (fst ij) (snd ij)) (f (snd ij) (fst ij))) (pairs n n).
-
-Lemma sym_b_true n f : sym_b n f = true -> P_symmetric (mkmat n n f).
-Proof.
-  intros H. split; [reflexivity|]. cbn [mr mc mf]. intros i j Hi Hj.
-  unfold sym_b in H. rewrite forallb_forall in H. specialize (H (i, j)). cbn [fst snd] in H.
-  apply e_eqb_eq. apply H. apply in_pairs. auto.
-Qed.
-
-Definition q_of_Z (z : Z) : ent := (Q2Qc (inject_Z z), qc0).
-Definition sym_witness : mexpr :=
-  MHad [MIdent (DInt 2); MDense 2 2 [q_of_Z 1; q_of_Z 2; q_of_Z 3; q_of_Z 4]].
-
-(* is_symmetric answers "false" although the value, diag(1,4), is symmetric *)
-Theorem is_symmetric_hadamard_refuted :
-  exists e, wf e = true /\ is_symmetric e = Ok TF /\
-            forall rho, exists V, denote rho e = Some V /\ P_symmetric V.
-Proof.
-  exists sym_witness. split; [vm_compute; reflexivity|]. split; [vm_compute; reflexivity|].
-  intros rho. eexists. split; [reflexivity|]. cbn [fst snd].
-  apply sym_b_true. vm_compute. reflexivity.
+  - (* HadamardProduct: all factors symmetric *)
+    intros V HV. apply denote_Some in HV. destruct HV as (s & Hs & ->).
+    rewrite shp_MHad in Hs. apply shape_all_Forall in Hs. destruct Hs as [Hne Hall].
+    cbn [wf] in Hwf. apply andb_true_iff in Hwf. destruct Hwf as [_ Hwfs].
+    rewrite forallb_forall in Hwfs. rewrite Forall_forall in IH, Hall.
+    apply sym_had_rule_spec in Ht. destruct Ht as [NF HT]. split; [|intros E; congruence].
+    intros E. destruct (HT E) as [_ Hallsym].
+    assert (G : forall x, In x fs -> good_at rho P_symmetric s x).
+    { intros x Hin.
+      destruct (sound_answer_good rho P_symmetric s x TT (Hall x Hin) (IH x Hin (Hwfs x Hin) TT (Hallsym x Hin))) as [G _].
+      now apply G. }
+    unfold P_symmetric. cbn [mr mc mf]. split.
+    + destruct fs as [|x0 ?]; [congruence|]. destruct (G x0 (or_introl eq_refl)) as [Sq _]. exact Sq.
+    + intros i j Hi Hj. rewrite !val_MHad. apply eprod_map_ext. intros x Hin.
+      destruct (G x Hin) as [_ G2]. now apply G2.
 Qed.
